@@ -83,6 +83,12 @@ def run_one(tape, cfg):
         if lock_kind == "false":
             g = 1
         compute = not tape.chance(1, 3, "deferred")
+        # several lazy stores built by separate calls and computed together
+        separate = (not compute) and nsrc > 1 and tape.chance(1, 2, "separate_calls")
+        if separate and shared and lock_kind == "true":
+            # lock=True makes one lock per store call ("lock each file individually"): separate calls
+            # writing into one read-modify-write target need a lock object shared by the caller
+            g = 1
         return_stored = tape.chance(1, 4, "return_stored")
         use_regions = shared or tape.chance(1, 2, "regions")
         nworkers = 2 + tape.draw(3, "nworkers")
@@ -95,7 +101,7 @@ def run_one(tape, cfg):
             chunks = tuple(split(tape, s) for s in shape)
             srcs.append({"shape": shape, "chunks": chunks, "off": tuple(tape.draw(3, "off") for _ in shape),
                          "pad": tuple(tape.draw(3, "pad") for _ in shape)})
-    wl = {"ndim": ndim, "shared": shared, "g": g, "advertise_chunks": advertise, "lock": lock_kind, "compute": compute,
+    wl = {"ndim": ndim, "shared": shared, "g": g, "advertise_chunks": advertise, "lock": lock_kind, "compute": compute, "separate_calls": separate,
           "return_stored": return_stored, "regions": use_regions, "nworkers": nworkers,
           "policy": policy, "sources": srcs, "npy": npy}
     out.decoded = wl
@@ -199,6 +205,8 @@ def run_one(tape, cfg):
                     out.probe("unlocked_atomic")
                 if not compute:
                     out.probe("deferred_compute")
+                if separate:
+                    out.probe("separate_lazy_stores")
                 lock = {"true": True, "false": False}.get(lock_kind)
                 if lock_kind == "simlock":
                     lock = SimLock()
@@ -216,7 +224,16 @@ def run_one(tape, cfg):
                 def client():
                     src_arg = dsrcs if len(dsrcs) > 1 or tape.chance(1, 2, "srclist") else dsrcs[0]
                     tgt_arg = targets if len(targets) > 1 or not isinstance(src_arg, da.Array) else targets[0]
-                    res = da.store(src_arg, tgt_arg, **kw)
+                    if separate:
+                        res = []
+                        for j, (sj, tj) in enumerate(zip(dsrcs, targets)):
+                            kwj = dict(kw)
+                            if use_regions:
+                                kwj["regions"] = regions[j]
+                            res.append(da.store(sj, tj, **kwj))
+                        res = tuple(res)
+                    else:
+                        res = da.store(src_arg, tgt_arg, **kw)
                     if not compute:
                         for (t, _), p in zip(expect, pristine):
                             if not np.array_equal(t.data, p):
